@@ -493,7 +493,9 @@ def attach_run(desc, attach):
         state = {n or 'root': (logging.getLogger(n).level, [type(h).__name__ for h in logging.getLogger(n).handlers], logging.getLogger(n).propagate,
                                logging.getLogger(n).disabled, logging.getLogger(n).getEffectiveLevel()) for n in names}
         out_lines = [ln for ln in stdout.getvalue().splitlines() if ' - deep' not in ln]      # the agent's own log lines are not the application's output
-        return {'records': list(sink), 'stdout': out_lines, 'loggers': state}
+        ps = process_state()
+        ps.pop('root-logger', None)      # compared in detail under 'loggers'
+        return {'records': list(sink), 'stdout': out_lines, 'loggers': state, 'process': ps}
     finally:
         try:
             if agent is not None:
@@ -518,9 +520,10 @@ def attach_case(ctx, desc):
     ctx.nt(('attach', desc['setup'], desc['order'], desc['level']))
     ctx.outcome(('attach', len(base['records']), len(base['stdout'])))
     label = f"application logging set-up {desc['setup']} (level {desc['level']}), {desc['order']}"
-    for k, what in (('records', 'log records reaching the application\'s handlers'), ('stdout', 'standard output'), ('loggers', 'state of the application\'s loggers')):
+    for k, what in (('records', 'log records reaching the application\'s handlers'), ('stdout', 'standard output'), ('loggers', 'state of the application\'s loggers'),
+                    ('process', 'process-wide settings after shutdown')):
         if base[k] != obs[k]:
-            if k == 'loggers':
+            if k in ('loggers', 'process'):
                 diff = {n: (base[k][n], obs[k][n]) for n in base[k] if base[k][n] != obs[k][n]}
             else:
                 diff = {'only-without-agent': [r for r in base[k] if r not in obs[k]][:3], 'only-with-agent': [r for r in obs[k] if r not in base[k]][:3]}
